@@ -13,6 +13,7 @@ Kernels (DESIGN.md section 4, C07):
 from typing import List
 
 from harness import _C07_ref as ref
+from harness import _C07_k4 as _k4
 from vsym import ob
 from vsym.ob import Ob
 
@@ -36,6 +37,9 @@ REAL_K1 = (
 )
 
 K1_OPS = ('consume', 'line', 'part', 'space')
+K1_N_NOTE = ('counts n > (longest text) + 2: every count greater than the remaining length takes the same first-line guard of '
+             'consume / consume_part_of_current_line; the guard formats n into the ValueError message, which makes an '
+             'unbounded symbolic n enumerate, so n is bounded')
 K1_ALPHABET = 'a \n'
 
 
@@ -55,7 +59,8 @@ def _pre_k1(s: str, n1: int, n2: int) -> bool:
     for i in range(2):
         takes_n = i < len(ops) and ops[i] in ('consume', 'part')
         if takes_n:
-            if ns[i] < 0:
+            # upper bound: see K1_N_NOTE
+            if ns[i] < 0 or ns[i] > c['maxlen'] + 2:
                 return False
         elif ns[i] != 0:
             return False
@@ -148,10 +153,10 @@ def _k1_obligations(tier: str) -> List[Ob]:
     for ops, maxlen in seqs:
         obs.append(Ob(
             name='K1:' + '+'.join(ops), fn='k1_parse_source', case=dict(ops=ops, maxlen=maxlen), kernel='K1',
-            bound='every text of <= %d characters over {a, space, newline}; operations %s with every count n >= 0; '
-                  'all observers compared after every operation' % (maxlen, ' then '.join(ops)),
-            timeout=600 if tier == 'quick' else 3000, real=REAL_K1,
-            outside=('negative counts (no documented meaning)',
+            bound='every text of <= %d characters over {a, space, newline}; operations %s with every count 0 <= n <= %d; '
+                  'all observers compared after every operation' % (maxlen, ' then '.join(ops), maxlen + 2),
+            timeout=300 if tier == 'quick' else 3000, real=REAL_K1,
+            outside=('negative counts (no documented meaning)', K1_N_NOTE,
                      'consume_part_of_current_line / consume_initial_space_on_current_line without a current line '
                      '(documented pre-condition has_current_line)'),
             entry='ParseSource(s).<operations>'))
@@ -161,7 +166,7 @@ def _k1_obligations(tier: str) -> List[Ob]:
             case=dict(ops=ops, maxlen=len2, via_copy=True), kernel='K1',
             bound='every text of <= %d characters over {a, space, newline}; %s on ParseSource.copy, original unchanged, '
                   'then catch_up_with' % (len2, ' then '.join(ops)),
-            timeout=600 if tier == 'quick' else 3000, real=REAL_K1, entry='ParseSource(s).copy'))
+            timeout=300 if tier == 'quick' else 3000, real=REAL_K1, entry='ParseSource(s).copy'))
     obs.append(Ob(name='K1:seeded-oracle-error', fn='k1_parse_source',
                   case=dict(ops=('consume',), maxlen=3, oracle_bug=True), kernel='K1',
                   bound='seeded oracle error: line number not advanced at column 0', timeout=300,
@@ -483,6 +488,245 @@ def _k3_obligations(tier: str) -> List[Ob]:
     return obs
 
 
+# =========================================================================== K4  real test-case parser, line kinds
+
+REAL_K4 = (
+    'exactly_lib.processing.processors._Parser.apply',
+    'exactly_lib.processing.processors._ParseErrorHandler',
+    'exactly_lib.processing.parse.test_case_parser.new_parser',
+    'exactly_lib.processing.parse.test_case_parser.Parser.apply',
+    'exactly_lib.processing.parse.instruction_section_element_parser.section_element_parser',
+    'exactly_lib.processing.parse.instruction_section_element_parser.section_element_parser_of',
+    'exactly_lib.processing.parse.file_inclusion_directive_parser.FileInclusionDirectiveParser.parse',
+    'exactly_lib.processing.parse.act_phase_source_parser.ActPhaseParser.parse',
+    'exactly_lib.processing.parse.act_phase_source_parser._un_escape',
+    'exactly_lib.common.instruction_name_and_argument_splitter.splitter',
+    'exactly_lib.section_document.document_parser.DocumentParser.parse_source',
+    'exactly_lib.section_document.impl.document_parser.DocumentParserForSectionsConfiguration',
+    'exactly_lib.section_document.impl.document_parser._Impl',
+    'exactly_lib.section_document.impl.document_parser.parse_file',
+    'exactly_lib.section_document.impl.document_parser._add_raw_doc',
+    'exactly_lib.section_document.impl.document_parser.build_document',
+    'exactly_lib.section_document.impl.file_access.read_source_file',
+    'exactly_lib.section_document.element_parsers.section_element_parsers.ParserFromSequenceOfParsers',
+    'exactly_lib.section_document.element_parsers.section_element_parsers.StandardSyntaxCommentAndEmptyLineParser',
+    'exactly_lib.section_document.element_parsers.section_element_parsers.parse_and_compute_source',
+    'exactly_lib.section_document.element_parsers.optional_description_and_instruction_parser.InstructionWithOptionalDescriptionParser',
+    'exactly_lib.section_document.element_parsers.optional_description_and_instruction_parser._DescriptionExtractor',
+    'exactly_lib.section_document.element_parsers.parser_for_dictionary_of_instructions.InstructionParserForDictionaryOfInstructions',
+    'exactly_lib.section_document.element_parsers.parser_for_dictionary_of_instructions._ErrMsgSourceConstructor',
+    'exactly_lib.section_document.element_builder.SectionContentElementBuilder',
+    'exactly_lib.section_document.source_location.FileLocationInfo',
+    'exactly_lib.section_document.source_location.source_location_path_of_non_empty_location_path',
+    'exactly_lib.section_document.exceptions.FileSourceError',
+    'exactly_lib.section_document.exceptions.FileAccessError',
+    'exactly_lib.section_document.parse_source.ParseSource',
+    'exactly_lib.section_document.syntax',
+    'exactly_lib.test_case.test_case_doc.TestCase',
+)
+
+
+def _pre_k4(k0: int, k1: int, k2: int, k3: int, k4: int, k5: int, k6: int, k7: int) -> bool:
+    return _k4.pre(ob.case(), (k0, k1, k2, k3, k4, k5, k6, k7))
+
+
+def k4_test_case(k0: int, k1: int, k2: int, k3: int, k4: int, k5: int, k6: int, k7: int) -> bool:
+    """
+    pre: _pre_k4(k0, k1, k2, k3, k4, k5, k6, k7)
+    post: _
+    """
+    case = ob.case()
+    kinds = _k4.kinds_of(case, (k0, k1, k2, k3, k4, k5, k6, k7))
+    nl = case.get('nl', True)
+    texts = {f: _k4.text_of(kinds[f], nl) for f in kinds}
+    d = _k4.write_files(texts)
+    exp = _k4.expected_outcome(texts, d, case.get('oracle_bug'))
+    real = _k4.real_outcome(d, texts[_k4.ROOT])
+    return ob.post(_k4.outcomes_agree(real, exp))
+
+
+def k4_permutation(k0: int, k1: int, k2: int, k3: int, k4: int, k5: int, k6: int, k7: int) -> bool:
+    """
+    pre: _pre_k4(k0, k1, k2, k3, k4, k5, k6, k7)
+    post: _
+    """
+    case = ob.case()
+    ks = (k0, k1, k2, k3, k4, k5, k6, k7)
+    kinds = _k4.kinds_of(case, ks)[_k4.ROOT]
+    sizes = case['block_sizes']
+    blocks = []
+    at = 0
+    for n in sizes:
+        blocks.append(kinds[at:at + n])
+        at += n
+    perm = case['perms'][int(ks[len(_k4.slots_of(case))])]
+    nl = case.get('nl', True)
+    bug = case.get('oracle_bug')
+
+    def parse(block_order, drop_first_line=False):
+        lines = []
+        for b in block_order:
+            lines += blocks[b]
+        if drop_first_line:
+            lines = lines[1:]
+        texts = {_k4.ROOT: _k4.text_of(lines, nl)}
+        d = _k4.write_files(texts)
+        return texts, d, _k4.real_outcome(d, texts[_k4.ROOT])
+
+    _, _, base = parse(range(len(blocks)))
+    texts, d, permuted = parse(perm)
+    good = _k4.outcomes_agree(permuted, _k4.expected_outcome(texts, d))
+    good = good and (base[0] == 'ok') == (permuted[0] == 'ok')
+    if good and base[0] == 'ok':
+        cb = _k4.contents_by_phase(base[1])
+        cp = _k4.contents_by_phase(permuted[1])
+        for phase in ref.PHASES:
+            order = [b for b in perm if blocks[b][0] == phase]
+            if order == sorted(order) or bug == 'order-of-same-phase-irrelevant':
+                good = good and cb[phase] == cp[phase]
+        if good and blocks[perm[0]][0] == ref.DEFAULT_PHASE:
+            # before any header the phase is act: dropping a leading [act] header changes nothing
+            _, _, dropped = parse(perm, drop_first_line=True)
+            good = dropped[0] == 'ok' and _k4.contents_by_phase(dropped[1]) == cp
+    return ob.post(good)
+
+
+K4_OUTSIDE = ('a root file given by a relative path (the harness passes an absolute path)',
+              'unreadable files, directories in place of files, symbolic links',
+              'instructions of exactly_lib itself (the five instruction phases have the stub instructions i and m)',
+              'documents longer than the stated number of lines; characters inside the lines (K1-K3, K5)')
+
+
+def _k4_ob(name, fn, case, bound, timeout, expect=ob.CONFIRM) -> Ob:
+    return Ob(name=name, fn=fn, case=case, kernel='K4', bound=bound, timeout=timeout, expect=expect, real=REAL_K4,
+              stubs=(_k4.STUB_INSTRUCTIONS,), outside=K4_OUTSIDE, selector=True,
+              entry='processors._Parser(parsing_setup).apply(TestCaseFileReference(file), text of file)')
+
+
+K4_ALL = _k4.HEADERS + ('unknown', 'malformed', 'comment', 'blank', 'i', 'i-ind', 'm', 'eof', 'di', 'd', 'dopen', 'dclose',
+                        'src', 'esc', 'esc-ind', 'inc-noarg', 'inc-2args', 'inc:missing', 'inc:main')
+
+
+def _kinds(alts) -> str:
+    return '{' + ', '.join(alts) + '}'
+
+
+def _describe(files) -> str:
+    parts = []
+    for f in _k4.FILE_ORDER:
+        if f in files:
+            parts.append('%s = [%s]' % (f, '; '.join(x if isinstance(x, str) else 'any of ' + _kinds(x) for x in files[f])))
+    return ' / '.join(parts)
+
+
+def _count(files) -> int:
+    n = 1
+    for f in files:
+        for x in files[f]:
+            if not isinstance(x, str):
+                n *= len(x)
+    return n
+
+
+K4_SECONDS_PER_DOCUMENT = 0.6  # measured ~0.15 s cpu per document (path) on a loaded machine; budget = 4x
+
+
+def _k4_case_ob(name, files, nl=True, **extra) -> Ob:
+    case = dict(files=files, nl=nl)
+    case.update(extra)
+    return _k4_ob(name, 'k4_test_case', case,
+                  'every choice of line kinds in %s (%d documents / file sets), %s final newline; line texts: %s'
+                  % (_describe(files), _count(files), 'with' if nl else 'without',
+                     'see _C07_k4.LINE'),
+                  120 + K4_SECONDS_PER_DOCUMENT * _count(files),
+                  expect=ob.REFUTE if extra.get('oracle_bug') else ob.CONFIRM)
+
+
+def _k4_obligations(tier: str) -> List[Ob]:
+    import itertools
+    R = _k4.ROOT
+    F1 = _k4.F1
+    F2 = _k4.F2
+    thorough = tier != 'quick'
+    obs = []
+    # ---- A: one file, every line kind
+    for n in (0, 1, 2):
+        obs.append(_k4_case_ob('K4:A:%d-lines' % n, {R: [K4_ALL] * n}))
+    if not thorough:
+        obs.append(_k4_case_ob('K4:A:setup+2-lines', {R: ['setup', K4_ALL, K4_ALL]}))
+    else:
+        for n in (1, 2):
+            obs.append(_k4_case_ob('K4:A:%d-lines:no-final-newline' % n, {R: [K4_ALL] * n}, nl=False))
+        obs.append(_k4_case_ob('K4:A:setup+2-lines:no-final-newline', {R: ['setup', K4_ALL, K4_ALL]}, nl=False))
+        for first in K4_ALL:
+            obs.append(_k4_case_ob('K4:A:3-lines:%s' % first, {R: [first, K4_ALL, K4_ALL]}))
+        for second in K4_ALL:
+            obs.append(_k4_case_ob('K4:A:setup+3-lines:%s' % second, {R: ['setup', second, K4_ALL, K4_ALL]}))
+    obs.append(_k4_case_ob('K4:A:seeded-oracle-error', {R: [('comment', 'src'), ('comment', 'src')]},
+                           oracle_bug='act-comment-dropped'))
+
+    # ---- B: permutation of phase blocks
+    phases = _k4.HEADERS if thorough else ('setup', 'act', 'assert', 'cleanup')
+    body = ('i', 'di', 'src')
+    if thorough:
+        blocks = [[phases, 'comment', body], [phases, 'm', 'src', 'eof'], [phases, 'i', 'blank']]
+    else:
+        blocks = [[phases, 'comment', body], [phases, 'm', 'src', 'eof']]
+    perms = list(itertools.permutations(range(len(blocks))))
+    flat = [x for b in blocks for x in b]
+
+    def perm_ob(name, flat_, expect=ob.CONFIRM, **extra):
+        case = dict(files={R: flat_}, block_sizes=[len(b) for b in blocks], perms=perms)
+        case.update(extra)
+        n = _count({R: flat_}) * len(perms)
+        return _k4_ob(name, 'k4_permutation', case,
+                      'blocks %s of %s in every one of the %d orders (%d documents): the permuted document agrees with the '
+                      'reference reading; per phase the instructions are those of the unpermuted document whenever the '
+                      'blocks of that phase keep their relative order; a leading [act] header can be dropped'
+                      % (' | '.join('[%s]' % '; '.join(x if isinstance(x, str) else 'any of ' + _kinds(x) for x in b)
+                                    for b in blocks), R, len(perms), n),
+                      120 + 3 * K4_SECONDS_PER_DOCUMENT * n, expect=expect)
+
+    if thorough:
+        for first in phases:
+            obs.append(perm_ob('K4:B:permutation:%s' % first, [first] + flat[1:]))
+    else:
+        obs.append(perm_ob('K4:B:permutation', flat))
+    obs.append(perm_ob('K4:B:seeded-oracle-error', [('setup',)] + flat[1:len(blocks[0])] + [('setup',)] + flat[len(blocks[0]) + 1:],
+                       expect=ob.REFUTE, oracle_bug='order-of-same-phase-irrelevant'))
+
+    # ---- C: inclusion
+    if not thorough:
+        rq = ('i', 'assert', 'inc:f1', 'comment')
+        fq = ('i', 'assert', 'act', 'src', 'unknown', 'inc:main', 'inc:f1', 'inc:missing')
+        g = ('i', 'cleanup', 'act', 'malformed', 'inc:up-f1', 'inc:up-main', 'inc:f2-self', 'inc:missing')
+        obs.append(_k4_case_ob('K4:C:one-level', {R: ['setup', 'inc:f1', rq], F1: [fq, fq]}))
+        obs.append(_k4_case_ob('K4:C:two-levels', {R: ['setup', 'inc:f1', 'i'], F1: [('i', 'assert'), 'inc:f2', 'i'],
+                                                   F2: [g, ('i', 'src')]}))
+        obs.append(_k4_case_ob('K4:C:two-levels-up', {R: ['assert', 'inc:f2', 'i'], F2: ['inc:up-f1', g], F1: [fq]}))
+        obs.append(_k4_case_ob('K4:C:empty-included-file', {R: [('setup', 'i'), 'inc:f1', ('i', 'blank')], F1: []}))
+    else:
+        rt = ('i', 'setup', 'assert', 'act', 'comment', 'inc:f1', 'inc:f2', 'inc:main', 'inc:missing', 'm', 'd')
+        ft = ('i', 'assert', 'act', 'src', 'unknown', 'comment', 'di', 'm', 'eof', 'inc:main', 'inc:f1', 'inc:f2', 'inc:missing')
+        g = ('i', 'cleanup', 'act', 'malformed', 'inc:up-f1', 'inc:up-main', 'inc:f2-self', 'inc:missing')
+        for r0 in rt:
+            obs.append(_k4_case_ob('K4:C:one-level:%s' % r0, {R: [r0, 'inc:f1', rt], F1: [ft, ft], F2: ['i']}))
+        for nl in (True, False):
+            sfx = '' if nl else ':no-final-newline'
+            obs.append(_k4_case_ob('K4:C:one-level:3-lines' + sfx, {R: ['setup', 'inc:f1', ('i', 'assert', 'inc:f1')],
+                                                                  F1: [ft, ft, ft]}, nl=nl))
+            obs.append(_k4_case_ob('K4:C:two-levels' + sfx,
+                                   {R: [('setup', 'assert'), 'inc:f1', ('i', 'inc:f2')], F1: [ft, 'inc:f2', ('i', 'cleanup', 'inc:f2')],
+                                    F2: [g, g]}, nl=nl))
+            obs.append(_k4_case_ob('K4:C:two-levels-up' + sfx,
+                                   {R: [('setup', 'assert'), 'inc:f2', ('i', 'inc:f1')], F2: [g, 'inc:up-f1', g], F1: [ft]}, nl=nl))
+            obs.append(_k4_case_ob('K4:C:empty-included-file' + sfx,
+                                   {R: [('setup', 'i'), 'inc:f1', ('i', 'blank', 'inc:f1')], F1: []}, nl=nl))
+    obs.append(_k4_case_ob('K4:C:seeded-oracle-error', {R: ['setup', 'inc:f1', ('i', 'comment')], F1: [('i', 'comment')]},
+                           oracle_bug='include-at-end'))
+    return obs
+
+
 # =========================================================================== registry
 
 def obligations(tier: str) -> List[Ob]:
@@ -491,7 +735,66 @@ def obligations(tier: str) -> List[Ob]:
     obs += _k2_obligations(tier)
     obs += _k5_obligations(tier)
     obs += _k3_obligations(tier)
+    obs += _k4_obligations(tier)
     return obs
+
+
+# =========================================================================== concrete self-test
+
+def _enumerate_inputs(o: Ob, budget: int):
+    """Concrete inputs of an obligation (all of them where the space is small, else a stride sample)."""
+    import itertools
+    c = o.case
+    if o.fn == 'k1_parse_source':
+        ml = min(c['maxlen'], 3)
+        texts = [''.join(t) for n in range(ml + 1) for t in itertools.product(K1_ALPHABET, repeat=n)]
+        rng = range(0, ml + 3)
+        n1s = rng if c['ops'][0] in ('consume', 'part') else [0]
+        n2s = rng if len(c['ops']) > 1 and c['ops'][1] in ('consume', 'part') else [0]
+        return ((t, a, b) for t in texts for a in n1s for b in n2s)
+    if o.fn == 'k2_line_syntax':
+        return ((''.join(t),) for t in itertools.product(K2_ALPHABET, repeat=min(c['n'], 4)) if len(t) == c['n'])
+    if o.fn == 'k3_document':
+        return ((''.join(t),) for t in itertools.product(K3_ALPHABET, repeat=c['n']))
+    if o.fn == 'k5_act_unescape':
+        return ((''.join(t),) for n in range(c['maxlen'] + 1) for t in itertools.product(K5_ALPHABET, repeat=n))
+    if o.fn in ('k4_test_case', 'k4_permutation'):
+        sizes = [len(alts) for (_, _, alts) in _k4.slots_of(c)]
+        if c.get('perms'):
+            sizes.append(len(c['perms']))
+        pad = [0] * (8 - len(sizes))
+        return (tuple(list(t) + pad) for t in itertools.product(*[range(n) for n in sizes]))
+    raise ValueError(o.fn)
+
+
+def selftest(tier: str) -> int:
+    """Every harness function is run on plain CPython on (a stride sample of) the concrete inputs of its
+    obligations: the reference oracles agree with the real code there, and every seeded oracle error has a
+    concrete witness.  This compares oracles and stubs with the real thing; it is not the deciding step."""
+    import itertools
+    import sys
+    mod = sys.modules[__name__]
+    n = 0
+    per_ob = 4000 if tier == 'quick' else 20000
+    for o in obligations(tier):
+        ob.set_context(o.case, (), False)
+        fn = getattr(mod, o.fn)
+        pre = {'k1_parse_source': _pre_k1, 'k2_line_syntax': _pre_k2, 'k3_document': _pre_k3,
+               'k5_act_unescape': _pre_k5, 'k4_test_case': _pre_k4, 'k4_permutation': _pre_k4}[o.fn]
+        witnessed = False
+        for args in itertools.islice(_enumerate_inputs(o, per_ob), per_ob):
+            if not pre(*args):
+                continue
+            r = fn(*args)
+            n += 1
+            if o.expect == ob.REFUTE:
+                witnessed = witnessed or not r
+            elif not r:
+                raise AssertionError('self-test: %s%r is false for obligation %s' % (o.fn, args, o.name))
+        if o.expect == ob.REFUTE and not witnessed:
+            raise AssertionError('self-test: seeded oracle error %s has no concrete witness' % o.name)
+    ob.set_context(None)
+    return n
 
 
 ASSUMPTIONS = []
